@@ -105,7 +105,13 @@ func VerifC04Flights() {
 		// client's randomised first bytes are not the other client's HMAC identifier
 		verifnd.Assume(!verifnd.BytesEq(flight[:32], []byte(min.Transport{}.GetIdentifier(otherReg))))
 	}
-	early := verifnd.Bytes("early-data", []int{0, 1, 40}[verifnd.Choose("early", 3)])
+	earlySizes := []int{0, 1, 40}
+	if verifnd.Thorough() {
+		// thorough: early data that does not fit the handler's 4096-byte read buffer together with
+		// the flight (one byte over, and more than two buffers)
+		earlySizes = append(earlySizes, 4097-len(flight), 9000)
+	}
+	early := verifnd.Bytes("early-data", earlySizes[verifnd.Choose("early", len(earlySizes))])
 	stream := append(append([]byte{}, flight...), early...)
 	// ---- segmentation: up to two cuts at the positions that matter
 	n := len(stream)
